@@ -84,3 +84,7 @@ mod tests {
         assert!(Mac::deserialize(&data).is_err());
     }
 }
+
+#[cfg(feature = "pendulum_project_ntpd_rs_verif")]
+#[path = "/verif/hooks/ntp-proto/packet_mac.rs"]
+pub mod verif_hooks;
